@@ -1,1 +1,160 @@
-def main : IO Unit := IO.println "driver C20: not built yet"
+import VncModel.Basic.Proto
+import VncModel.Httpd.Model
+/-! Line-protocol driver for the HTTP-server model (C20).  Same script as harness/c20.c.
+The sandbox file system is whatever the script's `mkdir` / `file` ops created (symlink-free), the
+screen is the harness's fixed one (16x8, desktop "verif desk", host "vhost", USER=vuser). -/
+open VncModel VncModel.Httpd VncModel.Proto VncModel.Gen.C20
+
+structure DState where
+  dirLen : Option Nat := none
+  proxy : Bool := false
+  port : Int := 0
+  files : List (Bytes × Bytes) := []
+  dirs : List Bytes := []
+  connOpen : Bool := false
+
+def envFixed : Env :=
+  { width := 16, height := 8, desktop := "verif desk".toUTF8.toList, thisHost := "vhost".toUTF8.toList,
+    user := some "vuser".toUTF8.toList }
+
+def joinSlash : List Bytes → Bytes
+  | [] => []
+  | [c] => c
+  | c :: cs => c ++ 47 :: joinSlash cs
+
+/-- kernel path lookup below the www directory in the symlink-free sandbox -/
+def fsLookup (s : DState) (dirLen : Nat) (path : Bytes) : FsRes :=
+  let f := path.drop dirLen
+  let comps := splitSlash f
+  let norm := comps.filter (fun c => c != [] && c != [46])
+  let wantsDir := match comps.getLast? with
+    | some c => c == [] || c == [46]
+    | none => false
+  let rel := joinSlash norm
+  if norm.isEmpty then .isDir
+  else if norm.any (fun c => c == [46, 46]) then .absent      -- never reached for model outcomes
+  else match s.files.find? (fun p => p.1 == rel) with
+    | some p => if wantsDir then .absent else .file p.2
+    | none => if s.dirs.contains rel then .isDir else .absent
+
+def fnv (bs : Bytes) : UInt64 :=
+  bs.foldl (fun h b => (h ^^^ b.toUInt64) * 1099511628211) 1469598103934665603
+
+def hex16 (x : UInt64) : String :=
+  String.ofList ((List.range 16).reverse.map fun i => hexChar ((x >>> (UInt64.ofNat (4 * i))).toNat % 16))
+
+def parseCuts (s : String) (len : Nat) : Option (List Nat) :=
+  if s = "-" then some [] else
+  let parts := s.splitOn ","
+  let rec go : List String → Nat → List Nat → Option (List Nat)
+    | [], _, acc => some acc.reverse
+    | p :: ps, prev, acc =>
+      match p.toNat? with
+      | some c => if c < prev || c > len then none else go ps c (c :: acc)
+      | none => none
+  go parts 0 []
+
+def cutChunks (b : Bytes) (cuts : List Nat) : List Bytes :=
+  let rec go : Bytes → Nat → List Nat → List Bytes
+    | rest, _, [] => [rest]
+    | rest, prev, c :: cs => rest.take (c - prev) :: go (rest.drop (c - prev)) c cs
+  go b 0 cuts
+
+def rfbVersion : Bytes := "RFB 003.008\n".toUTF8.toList
+
+def statusLine (r : Bytes) : Bytes := r.takeWhile (fun b => b != 13 && b != 10)
+
+/-- bytes after the first CR LF CR LF -/
+def bodyOf : Bytes → Option Bytes
+  | [] => none
+  | c :: t => if [13, 10, 13, 10].isPrefixOf (c :: t) then some (t.drop 3) else bodyOf t
+
+def doReq (s : DState) (dirLen : Nat) (bytes : Bytes) (cuts : List Nat) (endk : String) :
+    DState × String :=
+  let cfg : Cfg := { dir := List.replicate dirLen 100, proxy := s.proxy, port := s.port }
+  let e : SockEnd := if endk = "keep" then .eagain else .eof
+  -- an empty burst on a connection that stays open wakes nobody up: httpProcessInput is not called
+  let (o, rest, _) :=
+    if bytes.isEmpty && endk = "keep" then (Outcome.pending, ([] : Bytes), ([] : List W))
+    else processCallW true cfg (cutChunks bytes cuts) e
+  let fs := fsLookup s dirLen
+  let resp0 := respond envFixed cfg fs o
+  -- proxy hand-over: rfbNewClient peeks 4 bytes for at most 100 ms (websockets.c)
+  let accepted : Option (Bool × Nat) :=
+    match o with
+    | .proxyOk =>
+      if rest.length ≥ 4 && "RFB ".toUTF8.toList.isPrefixOf rest then some (true, 0)
+      else if rest.isEmpty then (if endk = "keep" then some (true, 100) else some (false, 0))
+      else none
+    | _ => some (false, 0)
+  match accepted with
+  | none => ({ s with connOpen := false }, "unmodelled")
+  | some (handed, wait) =>
+    let resp := if handed then resp0 ++ rfbVersion else resp0
+    let (openS, realS) :=
+      match opened o with
+      | none => ("-", "-")
+      | some p => ("W" ++ hex (p.drop dirLen),
+                   match fs p with
+                   | .absent => "-"
+                   | _ => "in")
+    let full := endk = "full"
+    let respS :=
+      if full then "resp=- len=0 hash=0 bhash=0 par=-"
+      else
+        let extra := match bodyOf resp with
+          | none => "bhash=0 par=-"
+          | some b =>
+            let a := b.dropWhile (· != 1)
+            let r := (a.drop 1).takeWhile (· != 2)
+            let closed := ((a.drop 1).dropWhile (· != 2)).isEmpty == false
+            let par := if a.isEmpty || !closed then "-" else "P" ++ hex r
+            s!"bhash={hex16 (fnv b)} par={par}"
+        s!"resp={hex (statusLine resp)} len={resp.length} hash={hex16 (fnv resp)} {extra}"
+    let pend := match o with
+      | .pending => true
+      | _ => false
+    let connS := if handed then "handed" else if pend then "open" else "closed"
+    let peerS := if full then "-" else if handed then "open" else if pend then "open" else "eof"
+    ({ s with connOpen := pend },
+     s!"open={openS} real={realS} {respS} conn={connS} peer={peerS} wait={wait} rfb=ok")
+
+def dstep (s : DState) (toks : List String) : DState × List String :=
+  match toks with
+  | ["dir", n, l] =>
+    match n.toNat?, s.dirLen with
+    | some n, none => if l = "4" || l = "6" then ({ s with dirLen := some n }, ["ok"]) else (s, ["bad-op"])
+    | _, _ => (s, ["bad-op"])
+  | ["mkdir", p] =>
+    match unhex? p, s.dirLen with
+    | some p, some _ => if p.isEmpty then (s, ["bad-op"]) else ({ s with dirs := p :: s.dirs }, ["ok"])
+    | _, _ => (s, ["bad-op"])
+  | ["file", p, c] =>
+    match unhex? p, unhex? c, s.dirLen with
+    | some p, some c, some _ =>
+      if p.isEmpty then (s, ["bad-op"]) else ({ s with files := (p, c) :: s.files }, ["ok"])
+    | _, _, _ => (s, ["bad-op"])
+  | ["cfg", pr, po] =>
+    match pr.toNat?, parseInt? po with
+    | some pr, some po => ({ s with proxy := pr != 0, port := po }, ["ok"])
+    | _, _ => (s, ["bad-op"])
+  | ["paint", _, _] => (s, ["ok"])
+  | ["req", h, c, e] =>
+    match unhex? h, s.dirLen with
+    | some b, some dl =>
+      if e != "keep" && e != "half" && e != "full" then (s, ["bad-op"]) else
+      match parseCuts c b.length with
+      | some cuts => let (s', o) := doReq s dl b cuts e; (s', [o])
+      | none => (s, ["bad-op"])
+    | _, _ => (s, ["bad-op"])
+  | ["newconn"] =>
+    match s.dirLen with
+    | some _ => ({ s with connOpen := true }, ["old=eof conn=open rfb=ok"])
+    | none => (s, ["bad-op"])
+  | ["hangup"] =>
+    match s.dirLen with
+    | some _ => ({ s with connOpen := false }, ["conn=closed rfb=ok"])
+    | none => (s, ["bad-op"])
+  | _ => (s, ["bad-op"])
+
+def main : IO Unit := runDriver ({} : DState) dstep
